@@ -23,7 +23,15 @@ fn build_cfg(c: &Value, counters: &[Arc<Counter>]) -> log4rs::Config {
     for a in c["root"]["apps"].as_array().unwrap() {
         rb = rb.appender(a.as_str().unwrap());
     }
-    b.build(rb.build(level_filter(c["root"]["lvl"].as_i64().unwrap()))).expect("valid configuration refused")
+    let lvl = c["root"]["lvl"].as_i64().unwrap();
+    if (lvl + c["loggers"].as_array().unwrap().len() as i64) % 2 == 0 {
+        return b.build(rb.build(level_filter(lvl))).expect("valid configuration refused");
+    }
+    // the same configuration reached differently: built with another root level, which is then set through
+    // Config::root_mut()
+    let mut cfg = b.build(rb.build(level_filter((lvl + 3) % 6))).expect("valid configuration refused");
+    cfg.root_mut().set_level(level_filter(lvl));
+    cfg
 }
 
 fn raw_cfg(c: &Value, dir: &str) -> log4rs::config::RawConfig {
